@@ -155,9 +155,23 @@ def request(case):
         if op == 'sign' and a['cls'] == 'Boolean':
             return None
         return ['c04', 'math', op, opd_sx(a), blank_sx(case)]
+    if op in R.IOPS:
+        d = dict(case, op=R.DIRECT[op])
+        d.pop('req', None)
+        r = request(d)
+        if r is None or a['src'] != 'qube':
+            return None
+        if b['src'] == 'ma' and a['kind'] != 'float' and b['kind'] == 'float' and not a['shape'] and not b['shape']:
+            return None           # KF-C04-10 with a 0-d MaskedArray: the rebound value is a MaskedArray; oracle only
+        if op == 'imul' and a['cls'] == 'Matrix3' and b['src'] == 'qube' and len(b.get('numer', [])) != 2:
+            return None           # KF-C04-9 (as_matrix3 re-reads leading axes): judged by the oracle only
+        return ['c04', 'inplace', R.DIRECT[op]] + r[2:-1] + [blank_sx(case)]
     if op in MODELLED_BIN:
         if a['src'] != 'qube' and b['src'] != 'qube':
             return None
+        if op in ('mul', 'div') and {a.get('cls'), b.get('cls')} == {'Scalar', 'Matrix3'} and \
+                any((o.get('prov') or {}).get('derivs') and not o.get('denom') for o in (a, b)):
+            return None           # KF-C04-8 (Matrix3 with a Scalar that carries a derivative): judged by the oracle only
         cls = {a.get('cls'), b.get('cls')}
         if 'Quaternion' in cls and op in ('mul', 'div', 'pow'):
             qa = a if a.get('cls') == 'Quaternion' else b
@@ -188,6 +202,48 @@ def mk(case, tag=''):
     if case['req'] is None:
         case['id'] = repr((case['op'], a, b))
     return case
+
+
+# ------------------------------------------------------------------------------------------- operand provenance
+def decorate(rng, cases, p=0.3):
+    """give a share of the cases operands with a HISTORY (same values/mask/units/class as the plain operand): built through
+    a number fast path (y0 + c, y0 - c, c + y0, y0 * c, c * y0) from a base object that carries a derivative and warm
+    caches (.wod, .antimask, products ... touched before and after), other memory layouts (Fortran order, strided view),
+    and earlier operations replayed on the very objects the judged operation then uses. The request for the model and
+    the NumPy reference do not change: results must not depend on any of this."""
+    warm_codes = list(R.WARM)
+    pre_codes = list(R.PRE)
+    for case in cases:
+        if case['op'] == 'bshape' or rng.random() > p:
+            continue
+        for key in ('a', 'b'):
+            o = case.get(key)
+            if o is None or o['src'] in ('num', 'npnum', 'shape'):
+                continue
+            if rng.random() < 0.4:
+                o['layout'] = rng.choice(['F', 'strided', 'rev'])
+            if o['src'] != 'qube' or o['cls'] == 'Boolean' or o['kind'] == 'bool':
+                continue
+            if case['op'] == 'pow' and key == 'b':
+                continue                      # exponents with derivatives are rejected by design
+            if rng.random() < 0.6:
+                vias = ['rmul'] if o['cls'] == 'Matrix3' else ['mul', 'rmul']     # Matrix3 * number is the number
+                if o['cls'] == 'Scalar' and not o.get('denom'):
+                    vias += ['add', 'sub', 'radd', 'add', 'sub']
+                via = rng.choice(vias)
+                if via in ('mul', 'rmul'):
+                    c = rng.choice([2.0, -1.0, 0.5, -2.0]) if o['kind'] == 'float' else rng.choice([1, -1])
+                else:
+                    c = rng.choice([1, 2, -3]) if o['kind'] == 'int' else rng.choice([1, 2.5, -0.125, 3])
+                o['prov'] = {'via': via, 'c': c, 'derivs': rng.random() < 0.8,
+                             'warm': rng.sample(warm_codes, rng.randint(0, 4)),
+                             'post': rng.sample(warm_codes, rng.randint(0, 2))}
+        if case.get('b') is not None and rng.random() < 0.5:
+            case['pre'] = [rng.choice(pre_codes) for _ in range(rng.randint(1, 4))]
+        case['req'] = request(case)
+        if case['req'] is None and 'id' not in case:
+            case['id'] = repr((case['op'], case['a'], case.get('b')))
+    return cases
 
 
 # ------------------------------------------------------------------------------------------- generation
@@ -296,4 +352,20 @@ def gen_cases(rng, tier):
                 b = operand(rng, tb, sb, None, 'pow', role='expo')
                 b['units'] = None
                 cases.append(mk({'op': 'pow', 'a': a, 'b': b}, ':ints'))
-    return cases
+    # 4. in-place forms: every template pair with a polymath target; shape pairs biased towards "b broadcasts into a"
+    INTO = [([], []), ([3], []), ([3], [3]), ([3], [1]), ([2, 3], [3]), ([2, 3], [2, 1]), ([2, 3], []), ([1], []), ([0], []),
+            ([2, 0], [1]), ([3, 3], [3]), ([4], [4]), ([2], [2]), ([2, 2, 2], [2, 1, 2]), ([3, 2], [2]), ([2, 3], [2, 3]),
+            ([], [3]), ([1], [3]), ([2], [3]), ([3], [2, 3]), ([2, 1], [1, 3])]
+    for (ta, ca) in tpls:
+        if len(ta) != 4:
+            continue
+        for (tb, cb) in tpls:
+            core = ca and cb
+            for op in ['iadd', 'isub', 'imul', 'idiv', 'ifloordiv', 'imod']:
+                if not thorough and rng.random() < (0.3 if core else 0.8):
+                    continue
+                for (sa, sb) in (rng.sample(INTO, 8 if core else 3) if thorough else rng.sample(INTO, 2 if core else 1)):
+                    a = operand(rng, ta, sa, tb, R.DIRECT[op])
+                    b = operand(rng, tb, sb, ta, R.DIRECT[op])
+                    cases.append(mk({'op': op, 'a': a, 'b': b}, ':inplace'))
+    return decorate(rng, cases, p=float(__import__("os").environ.get("C04_PROV", "0.3")))
